@@ -774,10 +774,9 @@ def tasks_for(tier):
         tasks.append((_cfg(["s1", "t7", "e1.1"], (3, 3), "slw", False), 2, full, 10))
     else:
         for j, kinds in enumerate(CURATED):
-            for wi, w in enumerate(WALKERS):  # every list with every walker, on two of the six boxes each
-                for size in (SIZES_THOROUGH[(j + wi) % 6], SIZES_THOROUGH[(j + wi + 3) % 6]):
-                    tasks.append((_cfg(kinds, size, w), 2, full, 10))
-        for j, kinds in enumerate(CURATED[3::6]):  # all histories of 3 operations, full alphabet
+            for wi, w in enumerate(WALKERS):  # every list with every walker, boxes rotating
+                tasks.append((_cfg(kinds, SIZES_THOROUGH[(j + 2 * wi) % 6], w), 2, full, 10))
+        for j, kinds in enumerate([CURATED[i] for i in (27, 28, 30, 39)]):  # all histories of 3 operations, full alphabet
             for part in range(6):
                 tasks.append((_cfg(kinds, SIZES_THOROUGH[(1 + j) % 4], WALKERS[j % 3]), 3, full, 400, (part, 6)))
         for kinds in CURATED[::4]:
@@ -792,7 +791,7 @@ def tasks_for(tier):
             if quick:
                 tasks.append((_cfg(ks, [(3, 2), (3, 4)][j % 2], WALKERS[j % 3]), 2 if b is None else 1, full, 5 if b is None else 1))
             else:
-                tasks.append((_cfg(ks, [(3, 2), (3, 4), (3, 1), (9, 3)][j % 4], WALKERS[j % 3]), 2, full, 7))
+                tasks.append((_cfg(ks, [(3, 2), (3, 4), (3, 1), (9, 3)][j % 4], WALKERS[j % 3]), 2, QUICK_OPTS, 7))
             j += 1
     # 2b. several operations between two renders ("sparse": rendered once, then only at the end; "cold": only at the end)
     for j, kinds in enumerate(CURATED):
@@ -800,12 +799,12 @@ def tasks_for(tier):
             continue
         for wi, w in enumerate(WALKERS if not quick else [WALKERS[(j // 3) % 3]]):
             mode = "cold" if (j + wi) % 4 == 0 else "sparse"
-            tasks.append((_cfg(kinds, SIZES_QUICK[(j + wi) % 5], w, True, mode), 2, full, 12))
+            tasks.append((_cfg(kinds, SIZES_QUICK[(j + wi) % 5], w, True, mode), 2, QUICK_OPTS, 12))
     if not quick:
-        for j, kinds in enumerate(CURATED[2::12]):
-            tasks.append((_cfg(kinds, (3, 2 + j % 3), WALKERS[j % 3], True, "sparse"), 3, DEEP_OPTS, 200))
+        for j, kinds in enumerate([CURATED[14], CURATED[38]]):
+            tasks.append((_cfg(kinds, (3, 2 + j % 3), WALKERS[j % 3], True, "sparse"), 3, DEEP_OPTS, 450))
     # 3. deeper histories on the reduced alphabet
-    deep_lists = CURATED[12::10] if quick else [CURATED[i] for i in (14, 26, 27, 39, 45)]
+    deep_lists = CURATED[12::10] if quick else [CURATED[i] for i in (26, 27, 45)]
     for j, kinds in enumerate(deep_lists):
         cfg = _cfg(kinds, (3, 2 + j % 2), WALKERS[j % 3])
         if quick:
@@ -921,7 +920,7 @@ def run(tier="quick", seed=0):
     checks = [_result(f"{ID}/{c}", RULES[c], bound, True, total, c, t0) for c in CLAUSES]
     t1 = time.time()
     nchunks = procs * 2
-    count, length = (12, 10) if quick else (200, 14)
+    count, length = (12, 10) if quick else (150, 14)
     rt = Tally()
     for t in _pool_map(random_task, [(seed, i, count, length) for i in range(nchunks)], procs):
         _merge(rt, t)
